@@ -5,10 +5,10 @@ Model of `discrete_strided_interval_set.py` / `valueset.py`, part 2: the set-lev
 sets — and the `ValueSet` operations `union` / `intersection` / `widen`.  Transcribed from the Python as written, with
 `_allow_dsis_flag = False` (`StridedInterval.union` is the join).  Names are not modelled.
 
-Status of the tie: the line-protocol driver evaluates the comparisons with the same composition (collapse both, compare)
-inline and `_intersection_with_si` through `DSIS.meetSI`; the other functions of this file are compositions of tied functions
-(`collapse`, `lift1/2`, `normalize`, the interval operations) that the driver does not call — the real code is checked for them
-by the enumerating oracle of `harness/props/C23.py` only.
+Status of the tie: every function of this file is run by the line-protocol driver (`so …` / `vs …` requests,
+`lean/DriverVSA/SetOpsCmd.lean`) and compared exactly with the real method on the same operands on every run of `./check C23`
+(`harness/lib/vsa_setops_corr.py`; the iteration orders of the Python sets involved are recorded on the real objects and handed
+to the model as the `order` arguments).
 -/
 namespace Claripy.VSA
 
@@ -126,8 +126,8 @@ def dictDel : List (String × SI) → String → List (String × SI)
   | [], _ => []
   | p :: ps, k => if p.1 == k then ps else p :: dictDel ps k
 
-/-- one iteration of the loop of `union` / `widen` with a value-set operand (the summary interval is updated in every
-iteration, as written) -/
+/-- one iteration of the loop of `union` with a value-set operand (the summary interval is updated in every iteration, as
+written) -/
 def vsCombineStep (op : SI → SI → R SI) (bsi : SI) (acc : VS) (p : String × SI) : R VS :=
   (match dictGet acc.regions p.1 with
     | none => pure (dictSet acc.regions p.1 p.2)
@@ -138,9 +138,18 @@ def vsFold (f : VS → String × SI → R VS) : VS → List (String × SI) → R
   | acc, [] => pure acc
   | acc, p :: ps => f acc p >>= fun acc' => vsFold f acc' ps
 
-/-- `union` / `widen` with a value set -/
+/-- `union` with a value set -/
 def VS.unionVS (v b : VS) : R VS := vsFold (vsCombineStep SI.union b.si) v b.regions
-def VS.widenVS (v b : VS) : R VS := vsFold (vsCombineStep SI.widen b.si) v b.regions
+
+/-- one iteration of the loop of `widen` with a value-set operand (regions only) -/
+def vsWidenStep (acc : VS) (p : String × SI) : R VS :=
+  match dictGet acc.regions p.1 with
+  | none => pure { acc with regions := dictSet acc.regions p.1 p.2 }
+  | some s => s.widen p.2 >>= fun u => pure { acc with regions := dictSet acc.regions p.1 u }
+
+/-- `widen` with a value set: unlike in `union`, the summary interval is widened ONCE, after the loop, as written -/
+def VS.widenVS (v b : VS) : R VS :=
+  vsFold vsWidenStep v b.regions >>= fun r => r.si.widen b.si >>= fun si => pure { r with si := si }
 
 /-- one iteration of `intersection` with a value set: a region of `b` that `vs` does not hold is skipped, an empty
 intersection deletes the region -/
@@ -153,5 +162,29 @@ def vsMeetStep (acc : VS) (p : String × SI) : R VS :=
 /-- `intersection` with a value set (regions of `self` that the operand does not hold are KEPT, as written) -/
 def VS.meetVS (v b : VS) : R VS :=
   vsFold vsMeetStep v b.regions >>= fun r => r.si.intersection b.si >>= fun si => pure { r with si := si }
+
+/-! ### `eval`: the list that is returned -/
+
+/-- a Python `set` of integers keeps the first of each value -/
+def dedupeInts (l : List Int) : List Int :=
+  l.foldl (fun acc x => if acc.contains x then acc else acc ++ [x]) []
+
+/-- reorder the distinct values as the recorded iteration order of the Python set says (indices into the insertion order) -/
+def permuteInts (l : List Int) (order : List Nat) : Option (List Int) :=
+  if order.length ≠ l.length ∨ !(List.range l.length).all (fun i => order.contains i) then none
+  else some (order.filterMap fun i => l[i]?)
+
+/-- the loop of `eval(n)`: `ret |= set(si.eval(n))` member by member, left as soon as `len(ret) >= n` -/
+def evalGather (n : Nat) : List SI → List Int → R (List Int)
+  | [], acc => pure acc
+  | s :: ss, acc => s.eval n false >>= fun l =>
+      if (dedupeInts (acc ++ l)).length ≥ n then pure (dedupeInts (acc ++ l)) else evalGather n ss (dedupeInts (acc ++ l))
+
+/-- `eval(n)` as written: `list(ret)[:n]`; `order` is the recorded iteration order of the Python set `ret` -/
+def DSIS.eval (d : DSIS) (n : Nat) (order : List Nat) : R (List Int) :=
+  evalGather n d.sis [] >>= fun vals =>
+    match permuteInts vals order with
+    | none => throw .assertion
+    | some l => pure (l.take n)
 
 end Claripy.VSA
